@@ -223,17 +223,35 @@ def main(tier):
             if len(samples) < 6:
                 k = int(np.nonzero(isb)[0][h])
                 samples.append(dict(query=_show(Q[seq[k]], S, fnname.get(int(Q[seq[k]]['fn']), '?')), result=_cshow(can[k]), history=h, position=k, env=env, config=config))
-        # ---- (3) sensitivity: an explicit insertion into the built-in collection must change the hash, and nothing else
-        r, s = special_req('Crystal_UnitCellVolume', s=['Si'])
-        r = np.concatenate([Q[bidx[:200]], r]); add = np.zeros(1, execlib.REQ); add['fn'] = 2000; add['s'] = len(S)
-        seqreq = np.concatenate([Q[bidx[:300]], add, Q[bidx[:300]]])
-        resp, msgs, rep = P.run(seqreq, S + ['XvInserted'])
-        if resp is None or rep['builtin_added'] != 1 or rep['h0'] == rep['h1']:
-            raise common.Inconclusive('segment hash did not register an explicit insertion: %r' % (rep,))
+        # ---- (3) explicit insertions into the built-in collection: the hash must see them, and NOTHING else may change -
+        #          neither unrelated queries nor any of the existing built-in crystals (stored volume, d-spacing, structure factor)
+        from .. import xl
+        names = xl.XL(config).crystal_list()['names']
+        cq, cs_ = [], []
+        for nm_fn, kw in (('Crystal_UnitCellVolume', dict(s=names)), ('Crystal_dSpacing', dict(s=names, i=[1, 1, 1])),
+                          ('Crystal_F_H_StructureFactor', dict(s=names, i=[1, 1, 1], d=[8.0, 1.0, 1.0]))):
+            r_, s_ = special_req(nm_fn, **kw)
+            r_ = r_.copy(); r_['s'] += len(S) + 2 + len(cs_); cs_ += s_; cq.append(r_)
+        cq = np.concatenate(cq)
+        block = np.concatenate([Q[bidx[:300]], cq])
+        add1 = np.zeros(1, execlib.REQ); add1['fn'] = 2000; add1['s'] = len(S)          # sorts before every built-in name
+        add2 = np.zeros(1, execlib.REQ); add2['fn'] = 2000; add2['s'] = len(S) + 1      # sorts after every built-in name
+        seqreq = np.concatenate([block, add1, block, add2, block])
+        resp, msgs, rep = P.run(seqreq, S + ['0000_XvInsertedFirst', 'zzzz_XvInsertedLast'] + cs_)
+        if resp is None or rep['builtin_added'] != 2 or rep['h0'] == rep['h1']:
+            raise common.Inconclusive('segment hash did not register the explicit insertions: %r' % (rep,))
         can = canon(resp, msgs)
-        for j in range(300):
-            if can[j] != can[301 + j] or can[j] != baseline[int(bidx[j])]:
-                ck.violation('c16:insertion-changes-unrelated-query', 'a built-in crystal insertion changed the result of another query', dict(request=int(bidx[j]), config=config))
+        nb = len(block)
+        for j in range(nb):
+            same = can[j] == can[nb + 1 + j] == can[2 * nb + 2 + j]
+            if j < 300:
+                same = same and can[j] == baseline[int(bidx[j])]
+            if not same:
+                what = fnname.get(int(block[j]['fn']), '?')
+                ck.violation('c16:insertion-changes-other-entry:%s' % what,
+                             'inserting a crystal into the built-in collection changed the result of a query on something else',
+                             dict(query=_show(block[j], S + ['', ''] + cs_, what), before=_cshow(can[j]), after_first=_cshow(can[nb + 1 + j]), after_last=_cshow(can[2 * nb + 2 + j]), config=config))
+        totals['evals'] += len(seqreq)
     multi = sum(1 for k, v in totals['preds'].items() if len(v) >= 2)
     if totals['histories'] == 0 or multi < 50:
         raise common.Inconclusive('too few queries re-observed after different predecessors: %d' % multi)
